@@ -252,6 +252,7 @@ N = _node_type('N')
 NX = _node_type('NX')
 Z = _node_type('Z', cache=None)
 Z1 = _node_type('Z1', cache=None, max_parallel=1)
+Z2 = _node_type('Z2', cache=None, max_parallel=2)
 J = _node_type('J', cache=JCache())
 P2 = _node_type('P2', cache=P2Cache())
 T = _node_type('T')
@@ -259,7 +260,7 @@ CtxSub = _node_type('CtxSub', extra_ns={'filter_context': _ctxsub_filter})
 CtxSub2 = _node_type('CtxSub2', max_parallel=2, extra_ns={'filter_context': _ctxsub_filter})
 CtxWrap = _node_type('CtxWrap', extra_ns={'filter_context': _ctxwrap_filter})
 
-NODE_TYPES = {c.__name__: c for c in (N1, N2, N3, NN, N, NX, Z, Z1, J, P2, T, CtxSub, CtxSub2, CtxWrap)}
+NODE_TYPES = {c.__name__: c for c in (N1, N2, N3, NN, N, NX, Z, Z1, Z2, J, P2, T, CtxSub, CtxSub2, CtxWrap)}
 CACHEABLE = {k for k, c in NODE_TYPES.items() if not isinstance(c._lt.cache, labtech.cache.NullCache)}
 MAX_PARALLEL = {k: c._lt.max_parallel for k, c in NODE_TYPES.items()}
 
@@ -409,6 +410,9 @@ def _chat_run(self):
         kind = act[0]
         if kind == 'log':
             getattr(labtech.logger, act[1])(tok(act[2]))
+        elif kind == 'logargs':
+            # lazy %-formatting with an argument that cannot be pickled
+            labtech.logger.info(tok(act[1]) + ' %s %s', threading.Lock(), len)
         elif kind == 'print':
             print(tok(act[1]), flush=bool(act[2]))
         elif kind == 'err':
